@@ -6,7 +6,7 @@ import types
 
 import z3
 
-from .engine import (UFunc, Unsupp, PathEnd, RaiseExc, ReturnExc, BreakExc, ContinueExc, T, Int, Bool, Float, RecT, SeqT, FloatV, Rec,
+from .engine import (Model, UFunc, Unsupp, PathEnd, RaiseExc, ReturnExc, BreakExc, ContinueExc, T, Int, Bool, Float, RecT, SeqT, FloatV, Rec,
                      PyList, SeqV, Opaque, ExcValue, BoundMethod, FuncRef, ClassInfo, World, Ctx, fresh, is_sym_int,
                      is_sym_bool, is_intlike, to_int_term, to_bool_term, py_floordiv, py_mod, real_of, seq_of, LabelSort,
                      SetV, MapV, s_len, s_at, s_concat, s_snoc, s_extract, s_contains, s_eq, s_empty, is_aseq)
@@ -52,6 +52,16 @@ def is_contextmanager_def(fn):
         if nm == "contextmanager":
             return True
     return False
+
+
+class PartialM(Model):
+    """functools.partial(f, *args, **kwargs)"""
+
+    def __init__(self, func, args, kwargs):
+        self.func, self.args, self.keywords = func, args, kwargs
+
+    def vf_call(self, interp, args, kwargs):
+        return interp.call(self.func, self.args + list(args), {**self.keywords, **kwargs})
 
 
 IDENTITY = object()      # marker: the element expression of a comprehension is the element itself
@@ -122,9 +132,9 @@ class Interp:
             if "__len__" in v.cls.methods:
                 return self.truthy(self.call_method(v, "__len__", [], {}))
             return True
-        if isinstance(v, (FuncRef, Closure, BoundMethod, Opaque, UFunc)):
+        if isinstance(v, (FuncRef, Closure, BoundMethod, Opaque, UFunc, Model, slice)):
             return True
-        if isinstance(v, dict):
+        if isinstance(v, (dict, frozenset)):
             return len(v) > 0
         if "truthy" in self.world.extra_builtins:
             # contract-supplied truth value of an otherwise uninterpreted value (additive): returns a bool / z3 Bool
@@ -196,6 +206,9 @@ class Interp:
         return PyList(self.e_Tuple(n, env))
 
     def e_Set(self, n, env):
+        vals = [self.eval(e, env) for e in n.elts]
+        if all(isinstance(v, (str, int)) and not isinstance(v, bool) for v in vals):
+            return frozenset(vals)          # a set of concrete strings / ints (membership tests only)
         raise Unsupp("set literal")
 
     def e_Dict(self, n, env):
@@ -381,6 +394,8 @@ class Interp:
             return a is b
         if a is None or b is None:
             return a is None and b is None
+        if isinstance(a, Model) or isinstance(b, Model):
+            return a.vf_eq(b) if isinstance(a, Model) else b.vf_eq(a)
         if isinstance(a, str) or isinstance(b, str):
             if isinstance(a, str) and isinstance(b, str):
                 return a == b
@@ -489,6 +504,10 @@ class Interp:
             return z3.Select(container.term, self.world.box(x, container.elem))
         if isinstance(container, MapV):
             return z3.Select(container.dom, self.world.box(x, container.key_t))
+        if isinstance(container, frozenset):
+            if isinstance(x, (str, int)):
+                return x in container
+            raise Unsupp("membership of a symbolic value in a concrete set")
         if isinstance(container, dict):
             if isinstance(x, (str, int)):
                 return x in container
@@ -661,6 +680,12 @@ class Interp:
             if cstate is not None and (ci.name, attr) in cstate:
                 return cstate[(ci.name, attr)]          # class-level mutable state declared by the contract (additive, C41)
             raise Unsupp(f"class attribute {ci.name}.{attr}")
+        if attr == "__doc__" and isinstance(obj, (FuncRef, Model, Closure)):
+            return Opaque("doc")
+        if isinstance(obj, Model):
+            if hasattr(obj, attr):
+                return getattr(obj, attr)
+            raise RaiseExc("AttributeError", node)
         if isinstance(obj, Opaque) and obj.what.startswith("module:"):
             full = obj.what.split(":")[1] + "." + attr
             consts = getattr(self.world, "module_values", {})
@@ -688,6 +713,8 @@ class Interp:
         return self.index(obj, idx, n)
 
     def index(self, obj, idx, node=None):
+        if isinstance(idx, slice):
+            return self.slice(obj, idx.start, idx.stop, idx.step)
         if isinstance(obj, Rec) and obj.cls.is_namedtuple:
             obj = tuple(obj.f[k] for k in obj.cls.fields)
         if isinstance(obj, (tuple, PyList)):
@@ -767,7 +794,19 @@ class Interp:
         if isinstance(v, dict):
             return list(v.keys())
         if isinstance(v, Rec) and "__iter__" in v.cls.methods:
-            raise Unsupp("iteration over a record with __iter__")
+            it = self.call_method(v, "__iter__", [], {})
+            if isinstance(it, (tuple, PyList, list, range)):
+                return self.iter_concrete(it)
+            raise Unsupp("iteration over a record whose __iter__ does not yield a concrete-length sequence")
+        if isinstance(v, frozenset):
+            return sorted(v, key=str)
+        if isinstance(v, FuncRef) and v.kind == "class" and any(str(b).endswith("Enum") for b in v.info.bases):
+            # iteration over an Enum class: its members in definition order (each with .name / .value)
+            out = []
+            for nm, node in v.info.class_attrs.items():
+                if not nm.startswith("_"):
+                    out.append(Rec(v.info, {"name": nm, "value": self.eval(node, {})}))
+            return out
         raise Unsupp(f"iteration over {v!r} needs a loop contract")
 
     def comp(self, n, env, elt_fn):
@@ -1013,6 +1052,8 @@ class Interp:
             return self.call_bound(f, args, kwargs, node)
         if isinstance(f, Closure):
             return self.call_closure(f, args, kwargs)
+        if isinstance(f, Model):
+            return f.vf_call(self, args, kwargs)
         if isinstance(f, UFunc):
             xs = [real_of(a) for a in args]
             f.calls.append(xs)
@@ -1390,6 +1431,18 @@ class Interp:
             out.insert(pos, x)
         return PyList(out)
 
+    def b_iter(self, args, kw, node):
+        return args[0]
+
+    def b_slice(self, args, kw, node):
+        return slice(*args)
+
+    def b_partial(self, args, kw, node):
+        return PartialM(args[0], list(args[1:]), dict(kw))
+
+    def b_functools_partial(self, args, kw, node):
+        return self.b_partial(args, kw, node)
+
     def b_round(self, args, kw, node):
         v = args[0]
         if len(args) > 1:
@@ -1488,6 +1541,8 @@ class Interp:
             if name == "reverse":
                 o.items.reverse()
                 return None
+            if name == "__iter__":
+                return o
             if name == "index":
                 for i, it in enumerate(o.items):
                     if self.ctx.branch(self.equal(it, args[0])):
@@ -1711,6 +1766,9 @@ class Interp:
             if isinstance(obj, FuncRef) and obj.kind == "class" and cstate is not None and (obj.info.name, t.attr) in cstate:
                 cstate[(obj.info.name, t.attr)] = v          # declared class-level state (additive, C41)
                 return
+            if isinstance(obj, Model):
+                setattr(obj, t.attr, v)
+                return
             if not isinstance(obj, Rec):
                 raise Unsupp("attribute assignment on non-record")
             if "__set_" + t.attr in obj.cls.methods:
@@ -1746,6 +1804,13 @@ class Interp:
                     self.world.extra_builtins["method:__delitem__"](self, [SuperProxy(obj), idx], {})
                 else:
                     raise Unsupp("del of a subscript of a record without __delitem__")
+            elif isinstance(t, ast.Subscript) and not isinstance(t.slice, ast.Slice) and isinstance(self.eval(t.value, env), dict):
+                d, key = self.eval(t.value, env), self.eval(t.slice, env)      # del d[k] on a python dict with concrete keys (additive)
+                if not isinstance(key, (str, int)):
+                    raise Unsupp("del of a symbolic dict key")
+                if key not in d:
+                    raise RaiseExc("KeyError", s)
+                del d[key]
             else:
                 raise Unsupp("del of non-name")
 
